@@ -72,7 +72,29 @@ class SpecPointer:
         return pspec.is_relative_to(self.parts, other.parts)
 
 
-def ref_apply(ops, doc, python_eq_in_test=False):
+def _array_index_with_negatives(token, allow_end, length):
+    """specs.rfc6902.array_index with the recorded finding built in: -k names the k-th element from the end."""
+    if isinstance(token, int) and not isinstance(token, bool) and token < 0:
+        if -token <= length:
+            return token + length
+        raise JSONPatchError("index out of range")
+    return _ARRAY_INDEX(token, allow_end, length)
+
+
+_ARRAY_INDEX = jspec.array_index
+
+
+def ref_apply(ops, doc, python_eq_in_test=False, negative_index=False):
+    if negative_index:
+        jspec.array_index = _array_index_with_negatives
+        try:
+            return _ref_apply(ops, doc, python_eq_in_test)
+        finally:
+            jspec.array_index = _ARRAY_INDEX
+    return _ref_apply(ops, doc, python_eq_in_test)
+
+
+def _ref_apply(ops, doc, python_eq_in_test=False):
     """RFC 6902 reference: ('ok', document) | ('error', kind).
 
     python_eq_in_test=True is the reference *with the recorded finding C05-test-bool-number-equality
@@ -126,13 +148,21 @@ def negative_token(ops):
     return any(re.search(r"/-[1-9][0-9]*$", op.get(k, "")) for op in ops for k in ("path", "from"))
 
 
+def _same_outcome(a, b):
+    return a[0] == b[0] and (U._same(a[1], b[1]) if a[0] == "ok" else a[1] == b[1])
+
+
 def classify(ops, doc, got, want):
-    if negative_token(ops):
-        return "C05-negative-array-index"
-    if any(op["op"] == "test" for op in ops) and want == ("error", "test"):
-        alt = ref_apply(ops, doc, python_eq_in_test=True)
-        if alt[0] == got[0] and (U._same(alt[1], got[1]) if got[0] == "ok" else alt[1] == got[1]):
-            return "C05-test-bool-number-equality"
+    """A disagreement is a recorded finding exactly when the reference reproduces the library's answer
+    once that finding - and nothing else - is built into it: negative array indices accepted as Python
+    indices (C05-negative-array-index), `test` comparing with Python == (C05-test-bool-number-equality)."""
+    for neg, pyeq, fid in ((True, False, "C05-negative-array-index"), (False, True, "C05-test-bool-number-equality"), (True, True, "C05-negative-array-index")):
+        try:
+            alt = ref_apply(ops, doc, python_eq_in_test=pyeq, negative_index=neg)
+        except Exception:  # noqa: BLE001
+            continue
+        if _same_outcome(alt, got) and not _same_outcome(alt, want):
+            return fid
     return None
 
 
